@@ -11,6 +11,7 @@ Definition load_ok (ah lh an ln : nat) (e : event) : Prop :=
       | RHay => off + w <= lh /\ (al = true -> 0 < w -> (ah + off) mod w = 0)
       | RNeedle => off + w <= ln /\ (al = true -> 0 < w -> (an + off) mod w = 0)
       end
+  | Alloc => False          (* a search never allocates: any Alloc event is unacceptable *)
   | _ => True
   end.
 
